@@ -228,6 +228,10 @@ def check_tree(ctx, pid):
     def f_node_branch(V):
         exp = expected_branches(pid)
         for x in range(1, n):
+            if len(ch[x]) >= 2:
+                # a furcation ends one branch and starts others: the property does not say which of them
+                # Node.branch() must report, so only pass-through nodes and tips are checked (see DESIGN.md section 9)
+                continue
             want = [b for b in exp if any(c == x for c in b[1:])]
             assert len(want) == 1
             got = [int(i) for i in tree.node(x).branch().origin_id()]
